@@ -3,12 +3,14 @@ from ..cfg import search, witness_str, dominated_by_edge, elem_dominates, may_th
 from ..expr import show, walk, last, field_of, strip_wrappers, strip_casts, short, const_value, is_assign, assign_parts as _ap, strip_views
 from ..facts import AnalysisBroken
 from ..finite import dominating_facts, flatten_fact
-from ..predabs import Vocab, PredAbs, A, Not, And, Or, T, F
+from ..predabs import Vocab, PredAbs, A, Not, And, Or, T, F, atoms_of, translate, known_when
 from ..rules import common
 from .c15 import asg, key_of, fn, _reach_until_ret, handler_covers
 
 TITLE = "The HTTP client transmits a non-idempotent request at most once"
-TECHNIQUE = 'finite predicate abstraction over the retry handler (idempotent / not-sent atoms, tracked bool copies) plus reaching-definition locality of the retry decision; CFG reachability from send calls to not-sent constructions; dominance for the retry budget; must-lockset; eviction-path rules'
+TECHNIQUE = ('finite predicate abstraction over the retry handler (idempotent / not-sent atoms, tracked bool copies) and over the keep-or-evict paths of the exchange, both seeing through the client\'s own boolean helper '
+             'functions (summaries over the same atoms, parameters bound to arguments); reaching-definition locality of the retry decision; CFG reachability from send calls to not-sent constructions closed over the call graph; '
+             'dominance for the retry budget; must-lockset; eviction-path rules; locals identified by the value they hold, not by name')
 HC = "iora::network::HttpClient"
 HCF = "iora/network/http_client.hpp"
 M = HC + "::_mutex"
@@ -24,11 +26,20 @@ EXPLANATION = (
     "§9.2.2 compared exactly. R3 HttpRequestNotSentError is constructed only where no send call can have executed: not reachable from "
     "any sendSync/send/sendAsync in executeRequest, and the try region it wraps reaches no send through the call graph. R4 the attempt "
     "counter starts at 0, is incremented once per back edge behind the false edge of `attempt >= retries`. R5 after the send every "
-    "failure path evicts the connection (catch-all → dropConnection → rethrow; send failure → dropConnection), the normal path evicts "
-    "unless `reusable`, whose conjuncts include the configuration switch, ¬close signal, ¬surplus bytes and ¬close-delimited, and "
+    "failure path evicts the connection (catch-all → dropConnection → rethrow; send failure → dropConnection); on the normal path, at every "
+    "return, `dropConnection was called` ∨ (reuse switch ∧ ¬close signal ∧ ¬surplus flag ∧ ¬close-delimited ∧ nothing pending in the transport ∧ "
+    "left in Sync read mode while it waits in the cache) — decided over paths, whether the conditions are one conjunction, nested ifs or a guard-clause helper; "
     "frameResponse flags every surplus-bytes edge. R6 lock table and lease: cache and lease set under HttpClient::_mutex, the lease "
     "object is created before the connection is acquired. R7 every blocking transport call gets a configured timeout, is made without "
     "_mutex, and the timeout arm of the receive loop throws.")
+# exempt from the function-inventory guard (report.py): these rules hold for, or look into, functions they have never seen — and answer
+# 'analysis broken' themselves where a helper hides what they need (see the AnalysisBroken raises in each)
+FOLLOWS_HELPERS = {"C17-R1": "boolean helpers called in the retry handler are summarised over the same atoms (Abs) and must be functions of their arguments (param_pure); a helper that decides in another form is a refusal",
+                   "C17-R3": "sends and not-sent origins are closed over the client's call graph (calls_reaching): a helper that transmits / can throw not-sent counts at its call site, and every function with a throw site is checked on its own",
+                   "C17-R5": "the keep-or-evict decision is decided on paths with boolean helpers summarised (Abs) and always-evicting helpers recognised (must_drop); a helper that evicts on some paths only is a refusal",
+                   "C17-R6": "guarded-by is universal per access site; the lease-before-connection order follows the client's helpers down to acquireConnection (calls_reaching)",
+                   "C17-R7": "universal: every blocking transport call in http_client.hpp, wherever it is, needs a configured timeout and no client mutex; the receive loop moved out of executeRequest is a refusal",
+                   "C17-R8": "universal: every function of the client that returns a cache entry's session id must be behind a positive probe; a token comparison delegated to a helper is a refusal"}
 NOT_DECIDED = ["at which byte the peer failed", "that sendSync returning an error implies nothing was written (it does not; the code treats it as possibly sent)", "wall-clock accuracy of the transport's timeouts (C03)"]
 
 
@@ -51,7 +62,331 @@ def unwrap(n):
         return n
 
 
+# ------------------------------------------------------------------ shared: the client's own helper functions, seen through their calls
+
+def subst(n, table, tag=None):
+    """copy of an expression tree of a callee in which every parameter whose declaration id is in `table` is replaced by table[id] (the
+    caller's argument); untouched sub-trees are shared.  Declaration ids are per function, so the callee's own locals are re-labelled
+    (tag, id): after the substitution a caller's id can never be mistaken for a callee's local that happens to have the same number."""
+    if not isinstance(n, dict):
+        return n
+    if n.get("k") == "var" and n.get("parm") is not None and n.get("d") in table:
+        return table[n["d"]]
+    out = None
+    if tag is not None and isinstance(n.get("d"), int) and (n.get("k") == "var" or ("k" not in n and "n" in n)):
+        out = dict(n)
+        out["d"] = (tag, n["d"])
+    for k, v in n.items():
+        if isinstance(v, dict):
+            nv = subst(v, table, tag)
+            if nv is not v:
+                out = out or dict(n)
+                out[k] = nv
+        elif isinstance(v, list):
+            nl = [subst(x, table, tag) for x in v]
+            if any(a is not b for a, b in zip(nl, v)):
+                out = out or dict(n)
+                out[k] = nl
+    return out or n
+
+
+def hc_callee(fb, n):
+    """the member function of HttpClient (with a body in http_client.hpp) that a call node resolves to, else None"""
+    if not isinstance(n, dict) or n.get("k") not in ("call", "mcall"):
+        return None
+    c = n.get("callee") or ""
+    if not c.startswith(HC + "::"):
+        return None
+    gs = [g for g in fb.funcs(c, HCF) if g.ok and len(g.params) == len(n.get("args", []))]
+    return gs[0] if len(gs) == 1 else None
+
+
+def bind(g, call):
+    """parameter declaration id of g -> argument expression of the call"""
+    return {p["d"]: a for p, a in zip(g.params, call.get("args", []))}
+
+
+def calls_reaching(fb, f, pred, _memo=None):
+    """stmt elements of f that satisfy pred(elem), or that are calls to a member function of HttpClient in which such an element is
+    reachable through the call graph (the client's own helpers are followed; nothing else is).  Pass one dict as _memo per predicate."""
+    memo = _memo if _memo is not None else {}
+
+    def reaches(g):
+        if g.sig in memo:
+            return memo[g.sig]
+        memo[g.sig] = False
+        res = False
+        for e in g.stmts():
+            if pred(e):
+                res = True
+                break
+            h = hc_callee(fb, e.node)
+            if h is not None and reaches(h):
+                res = True
+                break
+        memo[g.sig] = res
+        return res
+    out = []
+    for e in f.stmts():
+        if pred(e):
+            out.append(e)
+        else:
+            h = hc_callee(fb, e.node)
+            if h is not None and reaches(h):
+                out.append(e)
+    return out
+
+
+def call_tree(fb, root):
+    """root and the member functions of HttpClient reachable from it through calls"""
+    out, work = {}, [root]
+    while work:
+        g = work.pop()
+        if g.sig in out:
+            continue
+        out[g.sig] = g
+        for e in g.stmts():
+            h = hc_callee(fb, e.node)
+            if h is not None:
+                work.append(h)
+    return list(out.values())
+
+
+def is_transport_call(e):
+    """a call on the transport that belongs to the exchange (connect / send / receive)"""
+    n = e.node if e.kind == "stmt" else {}
+    return n.get("k") == "mcall" and "Transport::" in n.get("callee", "") and last(n.get("callee", "")) in SENDS + ("receiveSync", "connectSync")
+
+
+def is_transport_send(e):
+    n = e.node
+    return n.get("k") == "mcall" and last(n.get("callee", "")) in SENDS and "Transport" in n.get("callee", "")
+
+
+def var_initialised_by(f, call_elem):
+    """declaration id of the local that is initialised with (or assigned) the value of the given call element, else None"""
+    for e in f.stmts():
+        n = e.node
+        if n.get("k") == "decl":
+            for v in n["vars"]:
+                i = v.get("init")
+                if i is not None and unwrap_copy(i) is call_elem.node:
+                    return v["d"]
+        a = asg(n)
+        if a and unwrap_copy(a[1]) is call_elem.node and strip_casts(a[0]).get("k") == "var":
+            return strip_casts(a[0])["d"]
+    return None
+
+
+def unwrap_copy(n):
+    """look through casts and the copy/move construction that initialises a variable from a call's result"""
+    while True:
+        n = strip_casts(strip_wrappers(n)) if n is not None else None
+        if n is not None and n.get("k") == "ctor" and n.get("copy") and len([a for a in n.get("args", []) if not a.get("def")]) == 1:
+            n = [a for a in n["args"] if not a.get("def")][0]
+            continue
+        return n
+
+
+def is_var(n, d):
+    n = strip_casts(strip_wrappers(n)) if n is not None else None
+    return n is not None and n.get("k") == "var" and n.get("d") == d
+
+
+def _dnf(atoms, mask):
+    full = (1 << (1 << len(atoms))) - 1
+    if mask & full == full:
+        return T
+    out = F
+    for a in range(1 << len(atoms)):
+        if mask >> a & 1:
+            out = Or(out, And(*[A(x) if a >> i & 1 else Not(A(x)) for i, x in enumerate(atoms)]))
+    return out
+
+
+class Abs:
+    """A5 predicate abstraction that sees through the client's own boolean helper functions.  A call `h(args)` met in a condition stands
+    for the set of atom valuations under which h can return true (and false): the same abstraction is run over h's body with h's
+    parameters replaced by the caller's arguments, and the states at its `return`s are collected.  So `if (!retryIsSafe(method, e))`
+    and a guard-clause helper `connectionReusable(resp, framing, evict, sid)` mean what their bodies mean — whatever they are called.
+
+    atoms      : names of the vocabulary
+    leaf       : node -> formula|None in the CALLER's terms (parameters of a helper are substituted before it is asked)
+    effects    : (node, elem) -> ops|None, likewise
+    call_atoms : atoms that mean 'the latest evaluation of <call> returned true': havocked where the call is (re-)evaluated"""
+
+    def __init__(self, fb, atoms, leaf, effects=None, call_atoms=()):
+        self.fb, self.atoms, self.leaf0, self.eff0 = fb, list(atoms), leaf, effects
+        self.call_atoms = set(call_atoms)
+        self._sum, self._stack, self.seen, self.helpers = {}, [], set(), []
+
+    def leaf(self, n):
+        r = self.leaf0(n)
+        if r is not None:
+            self.seen |= atoms_of(r)
+            return r
+        g = hc_callee(self.fb, n)
+        if g is not None and n.get("t") == "bool":
+            s = self.summary(g, n)
+            if s is not None:
+                return s[0]
+        return None
+
+    def effects(self, e):
+        ops = []
+        if e.kind == "stmt":
+            n = e.node
+            ops += list((self.eff0(n, e) if self.eff0 else None) or [])
+            if n.get("k") in ("call", "mcall"):
+                r = self.leaf0(n)
+                if r is not None:
+                    ops += [("havoc", a) for a in sorted(atoms_of(r) & self.call_atoms)]
+                else:
+                    g = hc_callee(self.fb, n)
+                    s = self.summary(g, n) if g is not None and n.get("t") == "bool" else None
+                    if s is not None:
+                        ops += [("havoc", a) for a in sorted(s[1])]
+        elif self.eff0:
+            ops += list(self.eff0(None, e) or [])
+        return ops
+
+    def summary(self, g, call):
+        """(formula for 'the call returned true', call-atoms evaluated inside) or None when g cannot be summarised"""
+        k = id(call)
+        if k in self._sum:
+            return self._sum[k][1]
+        res = None
+        if g.sig not in self._stack and len(self._stack) < 4:
+            self._stack.append(g.sig)
+            try:
+                res = self._summarise(g, call)
+            finally:
+                self._stack.pop()
+        self._sum[k] = (call, res)      # (the node is kept alive: its id is the key)
+        return res
+
+    def _summarise(self, g, call):
+        table = bind(g, call)
+        # a helper that assigns to one of its parameters is not summarised: through a reference it changes the caller's state, and by
+        # value the parameter stops standing for the caller's argument
+        for e in g.stmts():
+            a = asg(e.node)
+            lhs = strip_casts(a[0]) if a else (strip_casts(e.node["v"]) if e.node.get("k") == "un" and ("++" in e.node.get("op", "") or "--" in e.node.get("op", "")) else None)
+            while lhs is not None and lhs.get("k") == "member":
+                lhs = strip_casts(lhs.get("b"))
+            if lhs is not None and lhs.get("k") == "var" and lhs.get("parm") is not None:
+                return None
+        rets = common.returns(g)
+        if not rets:
+            return None
+        cache = {}
+
+        def sub(x):
+            if id(x) not in cache:
+                cache[id(x)] = (x, subst(x, table, g.sig))
+            return cache[id(x)][1]
+        touched = set()
+
+        def leaf(x):
+            r = self.leaf(sub(x))
+            if r is not None:
+                touched.update(atoms_of_any(r) & self.call_atoms)
+            return r
+
+        def eff(e):
+            if e.kind != "stmt":
+                return None
+            ops = []
+            sn = sub(e.node)
+            if self.eff0:
+                ops += list(self.eff0(sn, e) or [])
+            if sn.get("k") in ("call", "mcall"):
+                r0 = self.leaf0(sn)
+                if r0 is not None:
+                    ops += [("havoc", a) for a in sorted(atoms_of(r0) & self.call_atoms)]
+            return ops
+        pa = PredAbs(g, Vocab(self.atoms), leaf, eff, track_bools=True, eh=False)
+        nb = len(self.atoms)
+        low = (1 << nb) - 1
+
+        def project(st):
+            m = 0
+            for a in range(pa.v.size):
+                if st >> a & 1:
+                    m |= 1 << (a & low)
+            return m
+        st_t = st_f = 0
+        for e in rets:
+            st = pa.before(e)
+            if st is None:
+                continue
+            v = e.node.get("v")
+            cv = const_value(strip_casts(v)) if v is not None and strip_casts(v).get("k") == "bool" else None
+            fm = (T if cv else F) if cv is not None else translate(v, pa.leaf)
+            st_t |= project(pa.v.assume(st, known_when(fm, True)))
+            st_f |= project(pa.v.assume(st, known_when(fm, False)))
+        self.helpers.append(g)
+        ft = _dnf(self.atoms, st_t)
+        if st_t & st_f == 0:
+            return (ft, touched)                       # exact: the result is a function of the atoms
+        return (("and?", ft, None), touched)           # true ⇒ ft; false ⇒ nothing known
+
+    def run(self, f, **kw):
+        return PredAbs(f, Vocab(self.atoms), self.leaf, self.effects, **kw)
+
+
+def atoms_of_any(fm, acc=None):
+    """atoms of a formula that may contain the partial connectives of predabs.translate"""
+    acc = set() if acc is None else acc
+    if fm is None:
+        return acc
+    if fm[0] == "a":
+        acc.add(fm[1])
+    elif fm[0] in ("not",):
+        atoms_of_any(fm[1], acc)
+    elif fm[0] in ("and", "or", "and?", "or?"):
+        atoms_of_any(fm[1], acc)
+        atoms_of_any(fm[2], acc)
+    return acc
+
+
+def param_pure(fb, g, seen=None, scope=None):
+    """why g's result is NOT a function of its arguments alone (it reads a static, a global, or a member of the client that the retry
+    loop's own call tree writes — state that can differ between two attempts of one call — or calls something that does), or None.
+    Used for 'the retry decision depends on nothing carried over from an earlier attempt'.  scope: the functions whose writes count."""
+    seen = seen if seen is not None else set()
+    if g.sig in seen:
+        return None
+    seen.add(g.sig)
+    if scope is None:
+        scope = [f_ for root in fb.funcs(HC + "::performRequest", HCF) if root.ok for f_ in call_tree(fb, root)]
+    own = {p["d"] for p in g.params}
+    for n in g.nodes.values():
+        if n.get("k") == "decl":
+            for v in n.get("vars", []):
+                if v.get("static"):
+                    return "%s keeps the static `%s` across calls" % (last(g.name), v["n"])
+                own.add(v["d"])
+    for n in g.nodes.values():
+        k = n.get("k")
+        if k == "member" and (n.get("b") or {}).get("k") == "this" and any(common.field_writes(f_, n["n"]) for f_ in scope):
+            return "%s reads the client's member `%s`, which is written while the request is being attempted" % (last(g.name), last(n["n"]))
+        if k == "gvar":
+            return "%s reads the global `%s`" % (last(g.name), short(n["n"]))
+        if k == "var" and n.get("d") not in own and n.get("parm") is None:
+            return "%s reads `%s`" % (last(g.name), n["n"])
+        if k in ("call", "mcall") and (n.get("callee") or "").startswith(HC + "::") and last(n["callee"]) != "isIdempotentMethod":
+            h = hc_callee(fb, n)
+            if h is None:
+                return "%s calls %s, which has no body here" % (last(g.name), last(n["callee"]))
+            why = param_pure(fb, h, seen, scope)
+            if why:
+                return why
+    return None
+
+
 def r1(ctx, r):
+    fb = ctx.fb()
     p = fn(ctx, HC, "performRequest", HCF)
     ex = [e for e in p.stmts() if e.node.get("k") == "mcall" and last(e.node.get("callee", "")) == "executeRequest"]
     if len(ex) != 1 or not ex[0].try_id:
@@ -62,6 +397,8 @@ def r1(ctx, r):
         raise AnalysisBroken("performRequest: %d handlers" % len(hs))
     fr = [b for b in hs if "HttpFramingError" in b.label.get("t", "")]
     gen = [b for b in hs if "std::exception" in b.label.get("t", "") or b.label.get("t") == "..."]
+    if any("HttpRequestNotSentError" in b.label.get("t", "") for b in hs):
+        raise AnalysisBroken("performRequest: not-sent failures are classified by a catch clause of their own; the rule reads the dynamic_cast form (one generic handler) only")
     # handler order: the framing handler is tried first
     order = p.trys[tid]["handlers"]
     r.instance()
@@ -86,11 +423,14 @@ def r1(ctx, r):
         for s in p.blocks[b].succs:
             if s is not None and not any(x is ex[0] for x in p.blocks[s].elems) and s != ex[0].block.id:
                 work.append(s)
-    excvar = g.label.get("var") or "e"
+    exc_d = g.label.get("d")            # the declaration of the handler's exception object (fresh at every handler entry)
+    method_d = param_decl(p, "method")
+    counter_d, counter_n = retry_counter(p)
     rethrows = [e for e in p.stmts() if e.block.id in hblocks and e.node.get("k") == "throw" and "root" in e.raw]
-    backs = [e for e in p.stmts() if e.block.id in hblocks and e.node.get("k") == "un" and "++" in e.node.get("op", "") and key_of(e.node["v"]) == "attempt"]
+    backs = [e for e in p.stmts() if e.block.id in hblocks and ((e.node.get("k") == "un" and "++" in e.node.get("op", "") and is_var(e.node["v"], counter_d)) or
+                                                             (e.node.get("k") == "bin" and e.node.get("op") == "+=" and is_var(e.node["lhs"], counter_d)) or (asg(e.node) and is_var(asg(e.node)[0], counter_d)))]
     if len(backs) != 1 or len(rethrows) < 2:
-        raise AnalysisBroken("performRequest: %d increments of attempt, %d rethrows in the generic handler" % (len(backs), len(rethrows)))
+        raise AnalysisBroken("performRequest: %d increments of the attempt counter `%s`, %d rethrows in the generic handler" % (len(backs), counter_n, len(rethrows)))
     # variables read by the conditions that decide between rethrow and retry
     conds = [b for b in p.blocks.values() if b.id in hblocks and b.cond is not None]
     decision_vars = {}
@@ -98,63 +438,149 @@ def r1(ctx, r):
         for x in walk(b.cond):
             # (the caught exception object is fresh in every handler entry: a condition may read it directly, e.g. when the
             # named flag it was stored in is spelled out in the `if`)
-            if x.get("k") == "var" and x.get("parm") is None and x["n"] not in ("attempt", excvar):
+            if x.get("k") == "var" and x.get("parm") is None and x.get("d") not in (counter_d, exc_d):
                 decision_vars[x["n"]] = x.get("d")
-    r.instance(max(1, len(decision_vars)))
-    for name, d in sorted(decision_vars.items()):
-        defs = []
+
+    def defs_of(d):
+        out = []
         for e in p.stmts():
             if e.node.get("k") == "decl":
                 for v in e.node["vars"]:
-                    if v["n"] == name and v.get("d") == d:
-                        defs.append((e, v.get("init")))
+                    if v.get("d") == d:
+                        out.append((e, v.get("init")))
             a = asg(e.node)
-            if a and key_of(a[0]) == name:
-                defs.append((e, a[1]))
-        ok, why = bool(defs), "no definition found"
+            if a and is_var(a[0], d):
+                out.append((e, a[1]))
+        return out
+
+    def carried(name, d, visiting):
+        """why the value of local `name` is not a function of (method, exception just caught) alone — (element, reason) — or None.  Locals it
+        is computed from are followed (`const bool ns = cast; const bool ok = idem || ns;`), and so are the client's own helper functions
+        it calls, which must be functions of their arguments."""
+        defs = defs_of(d)
+        if not defs:
+            return (None, "no definition found")
         for (e, rhs) in defs:
             if e.block.id not in hblocks:
-                ok, why = False, "it is (also) defined outside the handler, at line %d, i.e. before the attempt that just failed" % e.line
-                break
+                return (e, "it is (also) defined outside the handler, at line %d, i.e. before the attempt that just failed" % e.line)
             if rhs is None:
-                ok, why = False, "defined without a value"
-                break
-            for x in walk(rhs):
-                if x.get("k") == "var" and x["n"] == name:
-                    ok, why = False, "its new value depends on its value from an earlier attempt (`%s`)" % show(rhs)[:70]
-                if x.get("k") == "var" and x.get("parm") is None and x["n"] not in (name, excvar) and x["n"] != "e":
-                    ok, why = False, "it depends on `%s`, which is not the method or the exception just caught" % x["n"]
-                if x.get("k") in ("call", "mcall") and last(x.get("callee", "")) not in ("isIdempotentMethod",):
-                    ok, why = False, "it calls %s" % last(x.get("callee", ""))
-            if not ok:
-                break
-        r.expect(ok, p, defs[0][0] if defs else None, "retry decision carried over: %s" % name, "the retry decision reads `%s`, and %s: a not-sent (or otherwise retryable) classification of an EARLIER attempt makes a later attempt "
-                 "that did transmit the request eligible for another retry — a POST is submitted twice" % (name, why), okdesc="`%s` computed in the handler from (method, current exception)" % name)
+                return (e, "defined without a value")
+            why = impure(rhs, name, d, visiting)
+            if why:
+                return (e, why)
+        return None
+
+    def impure(rhs, name, d, visiting, calls_only=False):
+        for x in walk(rhs):
+            if not calls_only and x.get("k") == "var" and d is not None and x.get("d") == d:
+                return "its new value depends on its value from an earlier attempt (`%s`)" % show(rhs)[:70]
+            if not calls_only and x.get("k") == "var" and x.get("parm") is None and x.get("d") not in (d, exc_d):
+                if x.get("d") == counter_d:
+                    return "it depends on the attempt counter `%s`, which is not the method or the exception just caught" % x["n"]
+                if x.get("d") in visiting:
+                    continue
+                sub_ = carried(x["n"], x.get("d"), visiting | {x.get("d")})
+                if sub_:
+                    return "it depends on `%s`, and %s" % (x["n"], sub_[1])
+            if x.get("k") in ("call", "mcall") and last(x.get("callee", "")) not in ("isIdempotentMethod",):
+                h = hc_callee(fb, x)
+                if h is None:
+                    return "it calls %s" % last(x.get("callee", ""))
+                why = param_pure(fb, h)
+                if why:
+                    return "it calls %s, and %s — state that outlives the attempt" % (last(h.name), why)
+        return None
+    r.instance(max(1, len(decision_vars)))
+    for name, d in sorted(decision_vars.items()):
+        res = carried(name, d, {d})
+        r.expect(res is None, p, res[0] if res else None, "retry decision carried over: %s" % name, "the retry decision reads `%s`, and %s: a not-sent (or otherwise retryable) classification of an EARLIER attempt makes a later attempt "
+                 "that did transmit the request eligible for another retry — a POST is submitted twice" % (name, res[1] if res else ""), okdesc="`%s` computed in the handler from (method, current exception)" % name)
     if not decision_vars:
         r.ok("decision conditions use no carried variable")
+    # the client's own functions called directly in the deciding conditions (`if (!retryIsSafe(method, e))`) are functions of their
+    # arguments: no member, static or global that outlives the attempt
+    for b in conds:
+        hc_calls = [x for x in walk(b._raw_cond()) if x.get("k") in ("call", "mcall") and hc_callee(fb, x) is not None and last(x.get("callee", "")) != "isIdempotentMethod"]
+        for x in hc_calls:
+            r.instance()
+            why = param_pure(fb, hc_callee(fb, x))
+            r.expect(why is None, p, None, "retry decision carried over: %s" % last(x["callee"]), "the retry decision calls %s, and %s: state that outlives the attempt that just failed decides whether the request is sent again"
+                     % (last(x["callee"]), why), okdesc="%s is a function of its arguments" % last(x["callee"]))
     # back edge only with idempotent ∨ not-sent
-    vocab = Vocab(["idem", "ns"])
 
     def leaf(n):
-        if n.get("k") in ("call", "mcall") and last(n.get("callee", "")) == "isIdempotentMethod" and key_of(n["args"][0]) == "method":
+        if n.get("k") in ("call", "mcall") and last(n.get("callee", "")) == "isIdempotentMethod" and (n.get("callee") or "").startswith(HC + "::") and len(n["args"]) == 1 and is_var(n["args"][0], method_d):
             return A("idem")
         cp = common.cmp_parts(n)
-        if cp and cp[0] == "!=" and is_notsent_cast(cp[1]) and strip_casts(cp[2]).get("k") in ("null", "nullptr", "int", "zero"):
-            return A("ns")
+        if cp and cp[0] in ("!=", "==") and is_notsent_cast(cp[1]) and strip_casts(cp[2]).get("k") in ("null", "nullptr", "int", "zero"):
+            # … of THIS handler's exception object (a pointer to an exception saved from an earlier attempt proves nothing about this one)
+            o = strip_casts(cp[1])
+            if o is not None and o.get("k") == "un" and o.get("op") == "&" and is_var(o.get("v"), exc_d):
+                return A("ns") if cp[0] == "!=" else Not(A("ns"))
         return None
 
-    def effects(e):
+    def effects(n, e):
         # a new exception is caught: the not-sent fact is about THIS exception
-        if e.kind == "stmt" and e is ex[0]:
+        if e is ex[0]:
             return [("havoc", "ns")]
         return None
-    pa = PredAbs(p, vocab, leaf, effects, track_bools=True)
+    ab = Abs(fb, ["idem", "ns"], leaf, effects)
+    pa = ab.run(p, track_bools=True)
+    entailed = pa.entails(backs[0], Or(A("idem"), A("ns")))
+    if not entailed:
+        # helpers called in the handler that were not summarised (not boolean, recursive, writing through a reference) but take part in
+        # the decision — they throw, or look at the method / the exception type: the rule cannot say what the handler decides
+        def decides(e):
+            return (e.node.get("k") == "throw" and "root" in e.raw) or any(is_notsent_cast(x) for x in walk(e.node) if x.get("k") == "cast") or \
+                (e.node.get("k") in ("call", "mcall") and last(e.node.get("callee", "")) == "isIdempotentMethod")
+        opaque = [e for e in calls_reaching(fb, p, decides) if e.block.id in hblocks and hc_callee(fb, e.node) is not None and last(e.node["callee"]) != "isIdempotentMethod" and ab.summary(hc_callee(fb, e.node), e.node) is None]
+        lam = [e for e in p.stmts() if e.block.id in hblocks and e.node.get("k") == "opcall" and e.node.get("op") == "()" and "$lambda" in (e.node.get("callee") or "")]
+        if lam and not opaque:
+            raise AnalysisBroken("performRequest: the retry decision is taken by a local lambda, which the rule does not follow")
+        if opaque:
+            raise AnalysisBroken("performRequest: the retry decision is (partly) taken inside %s, in a form the rule does not follow (not a boolean function of its arguments)" % last(opaque[0].node["callee"]))
     r.instance()
-    r.expect(pa.entails(backs[0], Or(A("idem"), A("ns"))), p, backs[0], "retry of a possibly-sent non-idempotent request", "the retry loop's back edge (`attempt++`) is reachable with neither `isIdempotentMethod(method)` nor "
-             "'the exception just caught is HttpRequestNotSentError' established (%s)" % ", ".join(pa.describe(backs[0])), okdesc="back edge ⇒ idempotent ∨ not-sent(current exception)")
+    r.expect(entailed, p, backs[0], "retry of a possibly-sent non-idempotent request", "the retry loop's back edge (the increment of `%s`) is reachable with neither `isIdempotentMethod(method)` nor "
+             "'the exception just caught is HttpRequestNotSentError' established (%s)" % (counter_n, ", ".join(pa.describe(backs[0]))), okdesc="back edge ⇒ idempotent ∨ not-sent(current exception)%s" % ((" (through %s)" % ", ".join(sorted({last(h.name) for h in ab.helpers}))) if ab.helpers else ""))
+    # the two atoms are still what the decision is made of (in the handler itself or in the helpers it calls)
+    scope = [p] + list(ab.helpers)
     r.instance()
-    r.expect(any(x.get("k") in ("call", "mcall") and last(x.get("callee", "")) == "isIdempotentMethod" for e in p.stmts() for x in [e.node]) and any(is_notsent_cast(x) for e in p.stmts() if e.block.id in hblocks for x in walk(e.node) if x.get("k") == "cast"), p, None,
+    r.expect(entailed or any(x.get("k") in ("call", "mcall") and last(x.get("callee", "")) == "isIdempotentMethod" for f_ in scope for x in f_.nodes.values()) and
+             any(is_notsent_cast(x) for f_ in scope for e in f_.stmts() if f_ is not p or e.block.id in hblocks for x in walk(e.node) if x.get("k") == "cast"), p, None,
              "retry atoms", "the retry predicate no longer consists of isIdempotentMethod(method) and the dynamic_cast of the caught exception", okdesc="atoms: isIdempotentMethod(method), dynamic_cast<NotSent>(&e)")
+
+
+def param_decl(f, name, type_is=None):
+    """declaration id of a parameter of an anchored function: the only one whose type satisfies type_is when that is unambiguous (a rename
+    changes nothing), else the one called `name` (parameter names are the anchor table of last resort, C17-R0)"""
+    if type_is is not None:
+        ds = [p["d"] for p in f.params if type_is(p["t"].replace(" ", ""))]
+        if len(ds) == 1:
+            return ds[0]
+    ds = [p["d"] for p in f.params if p.get("n") == name]
+    if len(ds) != 1:
+        raise AnalysisBroken("%s: no parameter named `%s`" % (short(f.name), name))
+    return ds[0]
+
+
+INT_T = lambda t: t in ("int", "unsignedint", "constint", "size_t", "unsignedlong", "std::size_t")
+MUT_STRING_REF = lambda t: t.startswith("std::basic_string<char") and t.endswith("&") and not t.startswith("const")
+
+
+def retry_counter(p):
+    """(declaration id, name) of the attempt counter of performRequest: the local that is compared with the `retries` parameter — derived
+    from that comparison, whatever the local is called"""
+    rd = param_decl(p, "retries", INT_T)
+    found = {}
+    for b in p.blocks.values():
+        co = common.cmp_oriented(b.cond, lambda x: is_var(x, rd)) if b.cond is not None else None
+        if co:
+            l = strip_casts(co[1])
+            if l is not None and l.get("k") == "var" and l.get("parm") is None:
+                found[l["d"]] = l["n"]
+    if len(found) != 1:
+        raise AnalysisBroken("performRequest: %d locals are compared with `retries` (expected one attempt counter)" % len(found))
+    return list(found.items())[0]
 
 
 def r2(ctx, r):
@@ -162,7 +588,7 @@ def r2(ctx, r):
     lits = []
     for e in f.stmts():
         cp = common.cmp_parts(e.node)
-        if cp and cp[0] == "==" and key_of(strip_views(cp[1])) == "method":
+        if cp and cp[0] == "==" and len(f.params) == 1 and is_var(strip_views(cp[1]), f.params[0]["d"]):
             lits += [x.get("v") for x in walk(cp[2]) if x.get("k") == "str"]
     lits = sorted(set(lits))
     if not lits:
@@ -175,47 +601,35 @@ def r2(ctx, r):
     r.expect(not (calls & {"tolower", "toupper", "strcasecmp", "ciEquals", "transform"}), f, None, "case-insensitive method", "isIdempotentMethod compares case-insensitively (the method token is case-sensitive; `get` is not GET)", okdesc="exact comparison")
 
 
-def send_reach(fb, f, seen=None):
-    """f (transitively, inside HttpClient) calls a transport send"""
-    seen = seen if seen is not None else set()
-    if f.name in seen:
-        return False
-    seen.add(f.name)
-    for e in f.stmts():
-        n = e.node
-        if n.get("k") == "mcall" and last(n.get("callee", "")) in SENDS and "Transport" in n.get("callee", ""):
-            return True
-        if n.get("k") in ("mcall", "call") and (n.get("callee") or "").startswith(HC + "::"):
-            for g in fb.funcs(n["callee"], HCF):
-                if g.ok and send_reach(fb, g, seen):
-                    return True
-    return False
-
-
 def r3(ctx, r):
     fb = ctx.fb()
     n = 0
+
+    def throws_ns(e):
+        return e.node.get("k") == "throw" and "root" in e.raw and "HttpRequestNotSentError" in show(e.node)
+    # one exchange = executeRequest and the client's helpers it calls: inside it a call to a helper that can throw not-sent is as good
+    # as the throw itself, and a call to a helper that transmits is as good as the send itself (the retry loop around it is C17-R1's)
+    exchange = {g.sig for g in call_tree(fb, fn(ctx, HC, "executeRequest", HCF))}
+    m_send, m_ns = {}, {}
     for f in fb.in_file(HCF):
         if not f.ok:
             continue
-        sends = [e for e in f.stmts() if e.node.get("k") == "mcall" and last(e.node.get("callee", "")) in SENDS and "Transport" in e.node.get("callee", "")]
-        sends += [e for e in f.stmts() if e.node.get("k") in ("mcall", "call") and (e.node.get("callee") or "").startswith(HC + "::") and any(g.ok and send_reach(fb, g) for g in fb.funcs(e.node["callee"], HCF))]
-        for e in f.stmts():
-            nn = e.node
-            if not (nn.get("k") == "throw" and "root" in e.raw and "HttpRequestNotSentError" in show(nn)):
-                continue
-            n += 1
+        sends = calls_reaching(fb, f, is_transport_send, m_send)
+        origins = calls_reaching(fb, f, throws_ns, m_ns) if f.sig in exchange else [e for e in f.stmts() if throws_ns(e)]
+        for e in origins:
+            n += 1 if throws_ns(e) else 0
             r.instance()
             w = None
             for s in sends:
                 w = search(f, s, lambda x: x is e, eh=True)
                 if w is not None:
                     break
-            r.expect(w is None, f, e, "not-sent claimed after a send", "%s throws HttpRequestNotSentError at a point reachable from `%s` (line %d): the request may already be on the wire, yet the retry loop treats the failure as "
-                     "provably unsent and re-sends a non-idempotent request" % (last(f.name), show(s.node)[:40] if w is not None else "", s.line if w is not None else 0), witness=witness_str(f, w),
-                     okdesc="%s: not-sent thrown where no send can have run" % last(f.name))
+            what = "throws HttpRequestNotSentError" if throws_ns(e) else "calls %s (which can throw HttpRequestNotSentError)" % last(e.node.get("callee", ""))
+            r.expect(w is None, f, e, "not-sent claimed after a send", "%s %s at a point reachable from `%s` (line %d): the request may already be on the wire, yet the retry loop treats the failure as "
+                     "provably unsent and re-sends a non-idempotent request" % (last(f.name), what, show(s.node)[:40] if w is not None else "", s.line if w is not None else 0), witness=witness_str(f, w),
+                     okdesc="%s: not-sent %s where no send can have run" % (last(f.name), "thrown" if throws_ns(e) else "can come out of %s" % last(e.node.get("callee", ""))))
             # the region this handler wraps reaches no send
-            if e.catch_id:
+            if throws_ns(e) and e.catch_id:
                 region = [x for x in f.stmts() if x.try_id == e.catch_id or (f.trys.get(x.try_id, {}).get("parent") == e.catch_id)]
                 r.instance()
                 bad = [x for x in region if x in sends]
@@ -232,50 +646,153 @@ def r3(ctx, r):
 def r4(ctx, r):
     p = fn(ctx, HC, "performRequest", HCF)
     ex = [e for e in p.stmts() if e.node.get("k") == "mcall" and last(e.node.get("callee", "")) == "executeRequest"]
-    decl = [v for e in p.stmts() if e.node.get("k") == "decl" for v in e.node["vars"] if v["n"] == "attempt"]
-    incs = [e for e in p.stmts() if (e.node.get("k") == "un" and ("++" in e.node.get("op", "") or "--" in e.node.get("op", "")) and key_of(e.node["v"]) == "attempt") or (asg(e.node) and key_of(asg(e.node)[0]) == "attempt") or
-            (e.node.get("k") == "bin" and e.node.get("op") in ("+=", "-=") and key_of(e.node["lhs"]) == "attempt")]
+    if any(b.label and b.label.get("k") == "catch" and "HttpRequestNotSentError" in b.label.get("t", "") for b in p.blocks.values()):
+        raise AnalysisBroken("performRequest: not-sent failures have a catch clause of their own; the budget rule reads the single-handler form only")
+    # the attempt counter is whatever local is compared with `retries` (derived, not named)
+    cd, cn = retry_counter(p)
+    rd = param_decl(p, "retries", INT_T)
+    decl = [v for e in p.stmts() if e.node.get("k") == "decl" for v in e.node["vars"] if v.get("d") == cd]
+    incs = [e for e in p.stmts() if (e.node.get("k") == "un" and ("++" in e.node.get("op", "") or "--" in e.node.get("op", "")) and is_var(e.node["v"], cd)) or (asg(e.node) and is_var(asg(e.node)[0], cd)) or
+            (e.node.get("k") == "bin" and e.node.get("op") in ("+=", "-=") and is_var(e.node["lhs"], cd))]
+    if not incs and any(x.get("k") in ("call", "mcall") and any(is_var(a, cd) for a in x.get("args", [])) and hc_callee(ctx.fb(), x) is not None and
+                        (hc_callee(ctx.fb(), x).params[[i for i, a in enumerate(x["args"]) if is_var(a, cd)][0]]["t"].rstrip().endswith("&")) for x in p.nodes.values()):
+        raise AnalysisBroken("performRequest: the attempt counter `%s` is passed by reference to a helper; its increments are not in performRequest" % cn)
     r.instance()
-    r.expect(len(decl) == 1 and const_value(strip_casts(decl[0].get("init") or {})) == 0 and len(incs) == 1 and "++" in incs[0].node.get("op", ""), p, incs[0] if incs else None, "attempt counter", "`attempt` does not start at 0 with exactly one increment",
-             okdesc="attempt = 0; one attempt++")
+    def by_one(e):
+        """++c, c++, c += 1, c = c + 1 (either operand order)"""
+        n = e.node
+        if n.get("k") == "un":
+            return "++" in n.get("op", "")
+        if n.get("k") == "bin" and n.get("op") == "+=":
+            return const_value(strip_casts(n["rhs"])) == 1
+        a = asg(n)
+        rhs = strip_casts(a[1]) if a else None
+        return rhs is not None and rhs.get("k") == "bin" and rhs.get("op") == "+" and sorted([is_var(rhs["lhs"], cd) or const_value(strip_casts(rhs["lhs"])), is_var(rhs["rhs"], cd) or const_value(strip_casts(rhs["rhs"]))], key=str) in ([1, True], [True, 1])
+    r.expect(len(decl) == 1 and "&" not in (decl[0].get("t") or "") and const_value(strip_casts(decl[0].get("init") or {})) == 0 and len(incs) == 1 and by_one(incs[0]), p, incs[0] if incs else None, "attempt counter",
+             "`%s`, the local compared with the retry budget, does not start at 0 with exactly one increment" % cn, okdesc="%s = 0; one increment" % cn)
     def budget_test(b):
-        """(op, attempt, retries) of `attempt OP retries`, whichever way round the source writes it"""
-        co = common.cmp_oriented(b.cond, lambda x: key_of(x) == "retries") if b.cond is not None else None
-        return co if co and key_of(co[1]) == "attempt" else None
+        """(op, counter, retries) of `counter OP retries`, whichever way round the source writes it"""
+        co = common.cmp_oriented(b.cond, lambda x: is_var(x, rd)) if b.cond is not None else None
+        return co if co and is_var(co[1], cd) else None
     gb = [b for b in p.blocks.values() if budget_test(b)]
     r.instance()
     ok = len(gb) == 1 and len(incs) == 1 and len(ex) == 1
     if ok:
         op = budget_test(gb[0])[0]
-        ok = op in (">=", ">") and dominated_by_edge(p, incs[0], gb[0], 1, eh=True) and op == ">="
+        # `counter >= retries` → exhausted on the true edge; the same test spelled `counter < retries` → exhausted on the false edge
+        exhausted, cont = {">=": (0, 1), "<": (1, 0)}.get(op, (0, 1))
+        ok = op in (">=", "<") and gb[0].succs[exhausted] is not None and dominated_by_edge(p, incs[0], gb[0], cont, eh=True)
         # the only way back to executeRequest passes the increment
         ok = ok and search(p, ex[0], lambda x: x is ex[0], stop=lambda x: x is incs[0], eh=True) is None
-        tb = p.blocks[gb[0].succs[0]]
+        tb = p.blocks[gb[0].succs[exhausted]] if ok else None
         ok = ok and any(e.kind == "stmt" and e.node.get("k") == "throw" for e in _reach_until_ret(p, tb.id))
-    r.expect(ok, p, incs[0] if incs else None, "retry budget", "another attempt is possible without passing the false edge of `attempt >= retries` and the single increment: more than retries+1 attempts", okdesc="at most retries+1 executions of executeRequest")
+    r.expect(ok, p, incs[0] if incs else None, "retry budget", "another attempt is possible without passing the false edge of `%s >= retries` and the single increment: more than retries+1 attempts" % cn, okdesc="at most retries+1 executions of executeRequest")
     # the loop re-declares nothing that resets the counter; decl dominates the loop
     r.instance()
-    de = [e for e in p.stmts() if e.node.get("k") == "decl" and any(v["n"] == "attempt" for v in e.node["vars"])]
-    r.expect(de and ex and search(p, ex[0], lambda x: x is de[0], eh=True) is None, p, None, "counter reset", "`attempt` is re-initialised inside the loop", okdesc="counter declared before the loop")
+    de = [e for e in p.stmts() if e.node.get("k") == "decl" and any(v.get("d") == cd for v in e.node["vars"])]
+    r.expect(de and ex and search(p, ex[0], lambda x: x is de[0], eh=True) is None, p, None, "counter reset", "`%s` is re-initialised inside the loop" % cn, okdesc="counter declared before the loop")
+
+
+def probe_table(ctx):
+    """methods of the client that ask the transport, without waiting, whether anything is there (zero-timeout receiveSync):
+    qualified name -> 'pending' (true unless Timeout) | 'quiet' (true only for Timeout) | 'unknown'"""
+    if getattr(ctx, "_c17_probes", None) is not None:
+        return ctx._c17_probes
+
+    def probe_summary(g):
+        rc = [x for x in g.nodes.values() if x.get("k") == "mcall" and last(x.get("callee", "")) == "receiveSync" and "Transport" in x.get("callee", "")]
+        if len(rc) != 1:
+            return None
+        tcs = [const_value(y) for y in walk(unwrap(rc[0]["args"][-1])) if y.get("k") == "int"]
+        if tcs != [0]:
+            return None
+        rets = common.returns(g)
+        txt = " ".join(show(e.node) for e in rets)
+        # 'pending' form: true unless Timeout ; 'quiet' form: true only for Timeout
+        if "isOk()" in txt and "!=" in txt and "Timeout" in txt:
+            return "pending"
+        if "isErr()" in txt and "==" in txt and "Timeout" in txt:
+            return "quiet"
+        return "unknown"
+    ctx._c17_probes = {g.name: probe_summary(g) for g in ctx.fb().methods_of(HC) if g.ok and probe_summary(g)}
+    return ctx._c17_probes
+
+
+def surplus_flag(fr):
+    """frameResponse: (blocks that test for bytes behind the message, index of the `bool &` parameter their true edges set).  The flag is
+    found through what is assigned on those edges, not through its name."""
+    dd = param_decl(fr, "data", MUT_STRING_REF)
+
+    def surplus_test(b):
+        def is_size(x):
+            x = strip_casts(x)
+            return x is not None and x.get("k") == "mcall" and last(x.get("callee", "")) in ("size", "length") and is_var(x.get("obj"), dd)
+        co = common.cmp_oriented(b.cond, lambda x: not is_size(x)) if b.cond is not None else None
+        return co is not None and co[0] == ">" and is_size(co[1])
+    sur = [b for b in fr.blocks.values() if surplus_test(b)]
+    cands = {}
+    for b in sur:
+        for x in fr.blocks[b.succs[0]].elems if b.succs[0] is not None else []:
+            a = asg(x.node) if x.kind == "stmt" else None
+            if a and const_value(strip_casts(a[1])) == 1:
+                l = strip_casts(a[0])
+                if l.get("k") == "var" and l.get("parm") is not None and fr.params[l["parm"]]["t"].replace(" ", "") == "bool&":
+                    cands.setdefault(l["parm"], []).append(b.id)
+    if len(cands) != 1:
+        raise AnalysisBroken("frameResponse: cannot identify the surplus-bytes flag (%d `bool &` parameters are set on surplus edges, %d surplus tests)" % (len(cands), len(sur)))
+    idx = list(cands)[0]
+    return sur, idx, set(cands[idx])
 
 
 def r5(ctx, r):
+    fb = ctx.fb()
     e_ = fn(ctx, HC, "executeRequest", HCF)
     la = ctx.locks()
     send = [e for e in e_.stmts() if e.node.get("k") == "mcall" and last(e.node.get("callee", "")) == "sendSync"]
     if len(send) != 1:
         raise AnalysisBroken("executeRequest: %d sendSync calls" % len(send))
-    drops = [e for e in e_.stmts() if e.node.get("k") == "mcall" and last(e.node.get("callee", "")) == "dropConnection"]
-    # send failure → drop → throw
-    sb = [b for b in e_.blocks.values() if b.cond is not None and "sendResult.isErr()" in show(b.cond)]
+    is_drop0 = lambda x: x.kind == "stmt" and x.node.get("k") == "mcall" and x.node.get("callee") == HC + "::dropConnection"
+    _md = {}
+
+    def must_drop(g):
+        """every path through the client's helper g evicts (calls dropConnection, or a helper that always does): 'does X when all its paths do X'"""
+        if g.sig not in _md:
+            _md[g.sig] = False
+            _md[g.sig] = search(g, ("entry",), "exit", stop=lambda x: is_drop(x), eh=False) is None and any(is_drop(x) for x in g.stmts())
+        return _md[g.sig]
+
+    def is_drop(x):
+        if is_drop0(x):
+            return True
+        g = hc_callee(fb, x.node) if x.kind == "stmt" else None
+        return g is not None and last(g.name) != "dropConnection" and must_drop(g)
+    drops = [e for e in e_.stmts() if is_drop(e)]
+    # helpers that evict on SOME of their paths only: what they decide is not visible to the path rules below
+    maybe_drop = [e for e in calls_reaching(fb, e_, is_drop0) if not is_drop(e) and search(e_, send[0], lambda y, e=e: y is e, eh=False) is not None]     # (after the send)
+    # send failure → drop → throw.  The send's result is the local initialised from the call (or the call itself); its failing edge is
+    # the true edge of `.isErr()` / the false edge of `.isOk()`
+    sres_d = var_initialised_by(e_, send[0])
+
+    def send_failed_edge(b):
+        c, st, sf = common.branch(b)
+        c = strip_casts(c) if c is not None else None
+        if c is not None and c.get("k") == "mcall" and last(c.get("callee", "")) in ("isErr", "isOk") and ((sres_d is not None and is_var(c.get("obj"), sres_d)) or unwrap_copy(c.get("obj")) is send[0].node):
+            return st if last(c["callee"]) == "isErr" else sf
+        return None
+    sb = [b for b in e_.blocks.values() if b.cond is not None and send_failed_edge(b) is not None]
+    if not sb and sres_d is not None and any(x.get("k") in ("call", "mcall") and hc_callee(fb, x) is not None and any(is_var(a, sres_d) for a in x.get("args", [])) for x in e_.nodes.values()):
+        raise AnalysisBroken("executeRequest: the result of sendSync is judged inside a helper of the client (the send-failure path is not where the rule reads it)")
     r.instance()
     ok = len(sb) == 1
+    fail_els = []
     if ok:
-        els = _reach_until_ret(e_, sb[0].succs[0])
-        ok = any(x in drops for x in els) and any(x.kind == "stmt" and x.node.get("k") == "throw" for x in els)
+        fail_els = _reach_until_ret(e_, send_failed_edge(sb[0]))
+        ok = any(x in drops for x in fail_els) and any(x.kind == "stmt" and x.node.get("k") == "throw" for x in fail_els)
     r.expect(ok, e_, send[0], "send failure keeps the connection", "a failed send does not evict the connection before the error is reported", okdesc="send error → dropConnection → throw")
     # receive/framing region: a try with catch-all → drop → rethrow
     rcv = [e for e in e_.stmts() if e.node.get("k") == "mcall" and last(e.node.get("callee", "")) == "receiveSync"]
+    if len(rcv) != 1:
+        raise AnalysisBroken("executeRequest: %d receiveSync calls (the receive loop is not where the rule reads it)" % len(rcv))
     r.instance()
     ok = len(rcv) == 1 and rcv[0].try_id and "..." in e_.trys[rcv[0].try_id]["handlers"]
     hb = [b for b in e_.blocks.values() if b.label and b.label.get("k") == "catch" and rcv and b.label.get("try") == rcv[0].try_id and b.label.get("t") == "..."]
@@ -301,82 +818,134 @@ def r5(ctx, r):
                 continue
             if search(e_, send[0], lambda y, x=x: y is x, eh=False) is None:
                 continue
-            if x.block.id in {b.id for b in e_.blocks.values()} and any(x in _reach_until_ret(e_, sb[0].succs[0]) for _ in [0]):
+            if x in fail_els:
                 continue
-            if x.node.get("k") in ("mcall", "call") and last(x.node.get("callee", "")) in ("frameResponse", "receiveSync", "setReadMode", "responseRequestsClose", "substr"):
+            if x.node.get("k") in ("mcall", "call") and (last(x.node.get("callee", "")) in ("frameResponse", "receiveSync", "setReadMode", "responseRequestsClose", "substr") or
+                                                         (hc_callee(fb, x.node) is not None and not is_drop0(x))):
                 after.append(x)
         r.instance()
         r.expect(not after, e_, after[0] if after else None, "post-send work outside the eviction guard", "`%s` runs after the send but outside the try whose catch-all evicts the connection" % (show(after[0].node)[:40] if after else ""),
                  okdesc="receive, framing and reuse decision inside the guarded region")
-    # normal path: reusable conjuncts and the else → drop
-    rv = [v for e in e_.stmts() if e.node.get("k") == "decl" for v in e.node["vars"] if v["n"] == "reusable"]
-    r.instance()
-    if r.expect(len(rv) == 1 and rv[0].get("init") is not None, e_, None, "reuse decision", "the `reusable` decision was not found"):
-        t = show(rv[0]["init"])
-        conj = []
-
-        def flat(n):
-            n = strip_casts(n)
-            if n.get("k") == "bin" and n.get("op") == "&&":
-                flat(n["lhs"])
-                flat(n["rhs"])
-            else:
-                conj.append(show(n))
-        flat(rv[0]["init"])
-        # probes: methods of the client that ask the transport, without waiting, whether anything is there (zero-timeout receiveSync)
-        def probe_summary(g):
-            rc = [x for x in g.nodes.values() if x.get("k") == "mcall" and last(x.get("callee", "")) == "receiveSync" and "Transport" in x.get("callee", "")]
-            if len(rc) != 1:
-                return None
-            tcs = [const_value(y) for y in walk(unwrap(rc[0]["args"][-1])) if y.get("k") == "int"]
-            if tcs != [0]:
-                return None
-            rets = common.returns(g)
-            txt = " ".join(show(e.node) for e in rets)
-            # 'pending' form: true unless Timeout ; 'quiet' form: true only for Timeout
-            if "isOk()" in txt and "!=" in txt and "Timeout" in txt:
-                return "pending"
-            if "isErr()" in txt and "==" in txt and "Timeout" in txt:
-                return "quiet"
-            return "unknown"
-        probes = {g.name: probe_summary(g) for g in ctx.fb().methods_of(HC) if g.ok and probe_summary(g)}
-        ctx._c17_probes = probes
-
-        def no_pending(c):
-            m = [n_ for n_, k_ in probes.items() if last(n_) + "(" in c]
-            return bool(m) and ((probes[m[0]] == "pending" and c.startswith("!")) or (probes[m[0]] == "quiet" and not c.startswith("!")))
-        need = {"reuse switch": lambda c: c == "_config.reuseConnections", "no close signal": lambda c: c.startswith("!responseRequestsClose("), "no surplus bytes": lambda c: c == "!forceEvict",
-                "not close-delimited": lambda c: "framing.mode != " in c and "CloseDelimited" in c,
-                "nothing pending in the transport (bytes behind a message that ended exactly at a read boundary never reach the surplus test)": no_pending}
-        for k, pred in need.items():
-            r.instance()
-            r.expect(any(pred(c) for c in conj), e_, None, "reuse without: %s" % k, "the connection is kept for reuse without the conjunct '%s' (conjuncts: %s): a connection that saw a close signal / surplus bytes / a close-delimited body serves a later request"
-                     % (k, conj), okdesc="reusable ⇒ %s" % k)
-        r.instance()
-        r.expect(not any("||" in c for c in conj), e_, None, "reuse disjunction", "the reuse decision contains a disjunction: %s" % conj, okdesc="pure conjunction")
-        # (the branch on the named decision; Block.cond would show the decision's initialiser in its place)
-        rb = [b for b in e_.blocks.values() if b.cond is not None and key_of(b._raw_cond()) == "reusable"]
-        r.instance()
-        ok = len(rb) == 1
-        if ok:
-            _c, _st, _sf = common.branch(rb[0])
-            els_f = _reach_until_ret(e_, _sf)
-            els_t = _reach_until_ret(e_, _st)
-            ok = any(x in drops for x in els_f[:6])
-            # keeping it warm failing → drop
-            sm = [x for x in els_t if x.kind == "stmt" and x.node.get("k") == "mcall" and last(x.node.get("callee", "")) == "setReadMode"]
-            ok = ok and len(sm) >= 1
-        r.expect(ok, e_, None, "non-reusable connection kept", "the not-reusable branch does not evict the connection", okdesc="!reusable → dropConnection")
-    # frameResponse: every surplus-bytes comparison sets forceEvict
+    # ---- normal path: the connection stays cached only if every reuse condition was established — decided on paths, not on the
+    # spelling of one expression: at every normal return after the send, `dropConnection was called` ∨ (all conditions).  The conditions
+    # may be one conjunction, nested ifs, or a helper with guard clauses (Abs follows the client's own boolean helpers).
     fr = fn(ctx, HC, "frameResponse", HCF)
-    sets = [e for e in fr.stmts() if asg(e.node) and key_of(asg(e.node)[0]) == "forceEvict" and const_value(strip_casts(asg(e.node)[1])) == 1]
-    def surplus_test(b):
-        co = common.cmp_oriented(b.cond, lambda x: "data.size()" not in show(x)) if b.cond is not None else None
-        return co is not None and co[0] == ">" and "data.size()" in show(co[1])
-    sur = [b for b in fr.blocks.values() if surplus_test(b)]
+    sur, flag_idx, flagged = surplus_flag(fr)
+    fcs = [e for e in e_.stmts() if e.node.get("k") == "mcall" and e.node.get("callee") == HC + "::frameResponse"]
+    if len(fcs) != 1:
+        raise AnalysisBroken("executeRequest: %d calls of frameResponse (the surplus flag, the framing and the response object are the variables passed to it)" % len(fcs))
+
+    def arg_decl(call, g, pick, what):
+        idx = [i for i, p_ in enumerate(g.params) if pick(i, p_)]
+        a = strip_casts(strip_wrappers(call["args"][idx[0]])) if len(idx) == 1 and idx[0] < len(call["args"]) else None
+        if a is None or a.get("k") != "var":
+            raise AnalysisBroken("executeRequest: cannot identify the %s passed to frameResponse" % what)
+        return a["d"], a["n"]
+    evict_d, evict_n = arg_decl(fcs[0].node, fr, lambda i, p_: i == flag_idx, "surplus flag")
+    framing_d, _ = arg_decl(fcs[0].node, fr, lambda i, p_: p_["t"].replace(" ", "").endswith("Framing&"), "framing state")
+    resp_d, _ = arg_decl(fcs[0].node, fr, lambda i, p_: p_["t"].replace(" ", "").endswith("Response&"), "response object")
+    sid = strip_casts(strip_wrappers(send[0].node["args"][0]))
+    if sid is None or sid.get("k") != "var":
+        raise AnalysisBroken("executeRequest: the session passed to sendSync is not a variable")
+    sid_d = sid["d"]
+    probes = probe_table(ctx)
+    tracked = {evict_d: "evict", framing_d: "cd", resp_d: "close"}
+
+    def leaf(n):
+        k = n.get("k")
+        if k == "member" and n["n"].endswith("::Config::reuseConnections") and field_of(n.get("b")) == HC + "::_config":
+            return A("reuse")
+        if k == "mcall" and n.get("callee") == HC + "::responseRequestsClose" and len(n["args"]) == 1 and is_var(n["args"][0], resp_d):
+            return A("close")
+        if k == "var" and n.get("d") == evict_d:
+            return A("evict")
+        co = common.cmp_oriented(n, lambda x: strip_casts(x).get("k") == "enum" and strip_casts(x)["n"].endswith("BodyMode::CloseDelimited"))
+        if co and co[0] in ("==", "!="):
+            m = strip_casts(co[1])
+            if m.get("k") == "member" and m["n"].endswith("::Framing::mode") and is_var(m.get("b"), framing_d):
+                return A("cd") if co[0] == "==" else Not(A("cd"))
+        if k == "mcall" and n.get("callee") in probes and len(n["args"]) == 1 and is_var(n["args"][0], sid_d):
+            kind = probes[n["callee"]]
+            return A("pending") if kind == "pending" else Not(A("pending")) if kind == "quiet" else None
+        if k == "mcall" and n.get("callee", "").endswith("Transport::setReadMode") and len(n["args"]) == 2 and is_var(n["args"][0], sid_d):
+            m = strip_casts(n["args"][1])
+            if m.get("k") == "enum" and m["n"].endswith("ReadMode::Async"):
+                return A("warm")
+        return None
+
+    def root_var(x):
+        x = strip_casts(strip_wrappers(x)) if x is not None else None
+        while x is not None and x.get("k") in ("member", "idx"):
+            x = strip_casts(x.get("b"))
+        return x if x is not None and x.get("k") == "var" else None
+
+    def effects(n, e):
+        if n is None:
+            return None
+        ops = []
+        k = n.get("k")
+        if k == "mcall" and n.get("callee") == HC + "::dropConnection" and len(n["args"]) == 2 and is_var(n["args"][1], sid_d):
+            ops.append(("set", "dropped", True))
+        elif k in ("call", "mcall") and e in drops and any(is_var(a_, sid_d) for a_ in n.get("args", [])):
+            ops.append(("set", "dropped", True))       # a helper of the client that evicts this session on every one of its paths
+        if k == "mcall" and n.get("callee", "").endswith("Transport::setReadMode") and len(n["args"]) == 2 and is_var(n["args"][0], sid_d):
+            m_ = strip_casts(n["args"][1])
+            if not (m_.get("k") == "enum" and m_["n"].endswith("ReadMode::Sync")):
+                ops.append(("set", "leftsync", True))  # the session is (asked to be) taken out of Sync read mode
+        if k == "decl":
+            for v in n["vars"]:
+                if v.get("d") == evict_d:
+                    cv = const_value(strip_casts(v["init"])) if v.get("init") is not None else None
+                    ops.append(("set", "evict", bool(cv)) if cv is not None else ("havoc", "evict"))
+        a = asg(n) if k in ("bin", "opcall") else None
+        if a is None and k in ("bin", "opcall") and is_assign(n):
+            a = (_ap(n)[0], None)                      # compound assignment
+        if a:
+            rv = root_var(a[0])
+            if rv is not None and rv.get("d") in tracked:
+                cv = const_value(strip_casts(a[1])) if a[1] is not None and strip_casts(a[0]).get("k") == "var" else None
+                ops.append(("set", "evict", bool(cv)) if rv["d"] == evict_d and cv is not None else ("havoc", tracked[rv["d"]]))
+        if k in ("call", "mcall") and leaf(n) is None:
+            # a tracked variable handed to a call that may change it (an unknown callee, or a non-const reference parameter of one of the
+            # client's own functions): what was known about it is forgotten
+            g = hc_callee(fb, n)
+            for i, a_ in enumerate(n.get("args", [])):
+                rv = root_var(a_)
+                if rv is not None and rv.get("d") in tracked and root_var(a_) is strip_casts(strip_wrappers(a_)):
+                    t = g.params[i]["t"].strip() if g is not None and i < len(g.params) else "&"
+                    if t.endswith("&") and not t.startswith("const "):
+                        ops.append(("havoc", tracked[rv["d"]]))
+        return ops
+    ab = Abs(fb, ["reuse", "close", "evict", "cd", "pending", "warm", "dropped", "leftsync"], leaf, effects, call_atoms=("close", "pending", "warm"))
+    pa = ab.run(e_, track_bools=True, init=And(Not(A("dropped")), Not(A("leftsync"))))
+    rets = [x for x in common.returns(e_) if search(e_, send[0], lambda y, x=x: y is x, eh=False) is not None]
+    if not rets:
+        raise AnalysisBroken("executeRequest: no normal return after the send")
+    via = (" (through %s)" % ", ".join(sorted({last(h.name) for h in ab.helpers}))) if ab.helpers else ""
+    need = [("reuse switch", A("reuse"), "the client's reuseConnections switch"), ("no close signal", Not(A("close")), "¬responseRequestsClose(response)"),
+            ("no surplus bytes", Not(A("evict")), "¬%s (set by frameResponse when bytes follow the message)" % evict_n), ("not close-delimited", Not(A("cd")), "framing mode ≠ CloseDelimited"),
+            ("nothing pending in the transport (bytes behind a message that ended exactly at a read boundary never reach the surplus test)", Not(A("pending")), "a zero-timeout probe of the transport that found nothing"),
+            # HttpClient registers no data callback: in Async mode the transport discards whatever the peer sends on the idle connection
+            # (an unsolicited 408 before it drops it), and the reuse probe only sees what arrives after it switched back to Sync
+            ("left in Sync read mode while cached (in Async mode, with no data callback, bytes the peer sends on the idle connection are discarded before the reuse probe can see them)",
+             Not(A("leftsync")), "no setReadMode(session, <other than Sync>) since the exchange")]
+    if maybe_drop and any(not pa.entails(x, Or(A("dropped"), fm)) for x in rets for (_k, fm, _w) in need):
+        raise AnalysisBroken("executeRequest: %s evicts the connection on some of its paths only — the keep-or-evict decision is taken inside it, in a form the rule does not follow" % last(maybe_drop[0].node["callee"]))
+    for k, fm, what in need:
+        r.instance()
+        bad = [x for x in rets if not pa.entails(x, Or(A("dropped"), fm))]
+        r.expect(not bad, e_, bad[0] if bad else None, "reuse without: %s" % k, "executeRequest can return normally with the connection still cached (no dropConnection on the path) although '%s' was not established "
+                 "(certain at that point: %s): a connection that saw a close signal / surplus bytes / a close-delimited body / unread input serves a later request, which reads stale bytes as its own response or is sent into a closing socket"
+                 % (what, (", ".join(pa.describe(bad[0])) or "nothing") if bad else ""), okdesc="kept ⇒ %s%s" % (k.split(" (")[0], via))
+    # the not-evicting path exists at all (otherwise the rule above holds vacuously and 'reuse' is dead code: say so rather than pass silently)
     r.instance()
-    r.expect(len(sur) >= 3 and all(any(x in sets for x in fr.blocks[b.succs[0]].elems) for b in sur), fr, None, "surplus bytes not flagged", "frameResponse has %d surplus-bytes tests but not each sets forceEvict" % len(sur),
-             okdesc="%d surplus-bytes edges set forceEvict" % len(sur))
+    if not any(not pa.entails(x, A("dropped")) for x in rets) and fb.funcs(HC + "::dropConnection", HCF):
+        r.note("every normal return evicts the connection: connection reuse is switched off in effect")
+    r.ok("normal returns after the send: %d" % len(rets))
+    # frameResponse: every surplus-bytes comparison sets the flag
+    r.instance()
+    r.expect(len(sur) >= 3 and all(b.id in flagged for b in sur), fr, None, "surplus bytes not flagged", "frameResponse has %d surplus-bytes tests but not each sets `%s`" % (len(sur), fr.params[flag_idx]["n"]),
+             okdesc="%d surplus-bytes edges set %s" % (len(sur), fr.params[flag_idx]["n"]))
     rets = [e for e in common.returns(fr) if const_value(strip_casts(e.node.get("v") or {})) == 1]
     r.instance()
     r.expect(len(rets) >= 3 and all(any(search(fr, ("block", b.id), lambda x, e=e: x is e, eh=False) is not None for b in sur) for e in rets), fr, None, "complete without surplus test", "a `return true` of frameResponse is not preceded by a surplus-bytes test",
@@ -395,23 +964,37 @@ def r6(ctx, r):
         common.guarded_by(r, fb, la, HC + "::" + fld, M, files=[HCF])
     r.floor(8, "guarded access sites")
     e_ = fn(ctx, HC, "executeRequest", HCF)
-    lease = [e for e in e_.stmts() if e.node.get("k") == "decl" and any(v["n"] == "lease" for v in e.node["vars"])]
-    acq = [e for e in e_.stmts() if e.node.get("k") == "mcall" and last(e.node.get("callee", "")) == "acquireConnection"]
+    # the lease object: the local initialised from acquireLease(…) (whatever it is called); the connection is acquired by the call to
+    # acquireConnection — directly or inside a helper of the client (`openSyncSession`), which is then the point that must come after
+    lcall = [e for e in e_.stmts() if e.node.get("k") == "mcall" and e.node.get("callee") == HC + "::acquireLease"]
+    if len(lcall) != 1:
+        raise AnalysisBroken("executeRequest: %d calls of acquireLease (the lease object is the local initialised from it)" % len(lcall))
+    lease_d = var_initialised_by(e_, lcall[0])
+    lease = [e for e in e_.stmts() if e.node.get("k") == "decl" and any(v.get("d") == lease_d for v in e.node["vars"])] if lease_d is not None else []
+    acq = calls_reaching(fb, e_, lambda e: e.node.get("k") == "mcall" and e.node.get("callee") == HC + "::acquireConnection")
+    if not acq:
+        raise AnalysisBroken("executeRequest: no call that reaches acquireConnection")
     r.instance()
-    r.expect(len(lease) == 1 and len(acq) == 1 and elem_dominates(e_, lease[0], acq[0], eh=False) and "acquireLease" in show(lease[0].node), e_, None, "lease order", "the connection is acquired before the per-host lease is held", okdesc="lease held before acquireConnection")
+    r.expect(len(lease) == 1 and all(elem_dominates(e_, lease[0], a, eh=False) for a in acq), e_, acq[0], "lease order", "the connection is acquired (`%s`) before the per-host lease is held" % show(acq[0].node)[:40],
+             okdesc="lease held before %s" % ", ".join(sorted({last(a.node["callee"]) for a in acq})))
     # the lease object lives to the end: its destructor is an implicit dtor element at function scope exits only
-    dt = [e for e in e_.elems() if e.kind == "dtor" and (e.node.get("n") == "lease" or e.node.get("var") == "lease")]
+    dt = [e for e in e_.elems() if e.kind == "dtor" and lease_d is not None and e.raw.get("d") == lease_d]
     r.instance()
-    r.expect(len(dt) >= 1, e_, None, "lease scope", "the lease is not a scoped object of executeRequest", okdesc="lease released by RAII at scope exit (%d exits)" % len(dt))
+    r.expect(len(dt) >= 1 and all(search(e_, d_, lambda x: x in acq or is_transport_call(x), eh=False) is None for d_ in dt), e_, None, "lease scope", "the lease is not a scoped object of executeRequest that lives until the exchange is over", okdesc="lease released by RAII at scope exit (%d exits)" % len(dt))
     al = fn(ctx, HC, "acquireLease", HCF)
-    ins = [e for e in al.stmts() if e.node.get("k") == "mcall" and last(e.node.get("callee", "")) == "insert" and field_of(strip_casts(e.node.get("obj"))) == HC + "::_leasedHosts"]
+    on_leased = lambda e, names: e.node.get("k") == "mcall" and last(e.node.get("callee", "")) in names and field_of(strip_casts(e.node.get("obj"))) == HC + "::_leasedHosts"
+    ins = calls_reaching(fb, al, lambda e: on_leased(e, ("insert", "emplace", "try_emplace")))
     waits = [e for e in al.stmts() if e.node.get("k") == "mcall" and last(e.node.get("callee", "")) in ("wait", "wait_for", "wait_until")]
+    if not ins or not waits:
+        raise AnalysisBroken("acquireLease: %d insertions into _leasedHosts, %d condition-variable waits — the shape the lease rule reads is gone" % (len(ins), len(waits)))
     r.instance()
     ok = len(ins) == 1 and len(waits) >= 1 and la.holds(al, ins[0], M) and all(search(al, w, lambda x: x is ins[0], stop=lambda x: not la.holds(al, x, M), eh=False) is not None for w in waits)
     r.expect(ok, al, ins[0] if ins else None, "lease insert", "the lease is not inserted in the critical section whose predicate saw it absent", okdesc="insert in the same critical section as the wait predicate")
     rl = fn(ctx, HC, "releaseLease", HCF)
-    er = [e for e in rl.stmts() if e.node.get("k") == "mcall" and last(e.node.get("callee", "")) == "erase"]
+    er = calls_reaching(fb, rl, lambda e: on_leased(e, ("erase",)))
     nt = [e for e in rl.stmts() if e.node.get("k") == "mcall" and last(e.node.get("callee", "")) in ("notify_all", "notify_one")]
+    if not er:
+        raise AnalysisBroken("releaseLease: no erase from _leasedHosts reachable")
     r.instance()
     r.expect(len(er) == 1 and len(nt) == 1 and la.holds(rl, er[0], M) and last(nt[0].node["callee"]) == "notify_all" and elem_dominates(rl, er[0], nt[0], eh=False), rl, None, "lease release",
              "releaseLease does not erase under the lock and then notify_all (one cv serves all hosts)", okdesc="erase under _mutex, then notify_all")
@@ -432,7 +1015,7 @@ def r7(ctx, r):
                 src = show(targ)
                 ok = False
                 if targ.get("k") == "var":
-                    defs = [v.get("init") for d in f.stmts() if d.node.get("k") == "decl" for v in d.node["vars"] if v["n"] == targ["n"] and v.get("init") is not None]
+                    defs = [v.get("init") for d in f.stmts() if d.node.get("k") == "decl" for v in d.node["vars"] if v.get("d") == targ.get("d") and v.get("init") is not None]
                     ok = bool(defs) and all("_config." in show(x) and "imeout" in show(x) for x in defs)
                 elif "_config." in src and "imeout" in src:
                     ok = True
@@ -449,27 +1032,44 @@ def r7(ctx, r):
     if n < 3:
         raise AnalysisBroken("only %d blocking transport calls found in http_client.hpp (floor 3)" % n)
     e_ = fn(ctx, HC, "executeRequest", HCF)
-    tb = [b for b in e_.blocks.values() if b.cond is not None and "TransportError::Timeout" in show(b.cond)]
     rcv = [e for e in e_.stmts() if e.node.get("k") == "mcall" and last(e.node.get("callee", "")) == "receiveSync"]
+    # the Timeout arm(s) of the receive loop: the edge of a comparison of an error code with TransportError::Timeout on which they are
+    # equal, or the `case TransportError::Timeout:` label of a switch over it — whichever way the dispatch is written
+    is_timeout = lambda x: strip_casts(x) is not None and strip_casts(x).get("k") == "enum" and strip_casts(x)["n"].endswith("TransportError::Timeout")
+    arms = []
+    for b in e_.blocks.values():
+        if b.cond is not None and len(b.succs) == 2:
+            c, st, sf = common.branch(b)
+            co = common.cmp_oriented(c, is_timeout) if c is not None else None
+            if co and co[0] in ("==", "!=") and not is_timeout(co[1]):
+                arms.append(st if co[0] == "==" else sf)
+        if b.label and b.label.get("k") == "case" and b.label.get("v") is not None and is_timeout(b.label["v"]):
+            arms.append(b.id)
+    arms = [a for a in arms if a is not None]
+    if len(rcv) != 1:
+        raise AnalysisBroken("executeRequest: %d receiveSync calls (the receive loop is not where the rule reads it)" % len(rcv))
     r.instance()
-    ok = len(tb) >= 1 and len(rcv) == 1
-    if ok:
-        b = tb[-1]
-        ok = search(e_, ("block", b.succs[0]), lambda x: x is rcv[0], eh=False) is None and any(x.kind == "stmt" and x.node.get("k") == "throw" for x in _reach_until_ret(e_, b.succs[0]))
-    r.expect(ok, e_, None, "timeout not an error", "the Timeout arm of the receive loop can receive again instead of throwing: a silent peer is waited for longer than the configured timeout", okdesc="Timeout → throw")
+    ok = True       # (no dedicated Timeout arm: a timeout is one of the error results, which the next clause follows)
+    if arms:
+        ok = all(search(e_, ("block", a), lambda x: x is rcv[0], eh=False) is None and any(x.kind == "stmt" and x.node.get("k") == "throw" for x in _reach_until_ret(e_, a)) for a in arms)
+    bad_arm = [a for a in arms if search(e_, ("block", a), lambda x: x is rcv[0], eh=False) is not None]
+    r.expect(ok, e_, (e_.blocks[bad_arm[0]].elems or [None])[0] if bad_arm else None, "timeout not an error", "the Timeout arm of the receive loop can receive again instead of throwing: a silent peer is waited for longer than the configured timeout", okdesc="Timeout → throw (%d arm%s)" % (len(arms), "" if len(arms) == 1 else "s"))
     # every error arm leaves the loop: the loop body ends with an error result only when the exchange is complete
     r.instance()
     okl = False
-    if rcv:
+    if len(rcv) == 1:
+        # the receive result and the completion flag are found through what they hold (the value of receiveSync / of frameResponse)
+        rr_d = var_initialised_by(e_, rcv[0])
+        fcs = [e for e in e_.stmts() if e.node.get("k") == "mcall" and e.node.get("callee") == HC + "::frameResponse"]
+        comp_d = var_initialised_by(e_, fcs[0]) if len(fcs) == 1 else None
+        if rr_d is None or comp_d is None:
+            raise AnalysisBroken("executeRequest: cannot identify the variables holding the results of receiveSync / frameResponse")
         vocab = Vocab(["ok", "comp"])
 
         def leaf(n):
-            t = show(n)
-            if t == "recvResult.isOk()":
-                return A("ok")
-            if t == "recvResult.isErr()":
-                return Not(A("ok"))
-            if n.get("k") == "var" and n["n"] == "complete":
+            if n.get("k") == "mcall" and last(n.get("callee", "")) in ("isOk", "isErr") and is_var(n.get("obj"), rr_d):
+                return A("ok") if last(n["callee"]) == "isOk" else Not(A("ok"))
+            if n.get("k") == "var" and n.get("d") == comp_d:
                 return A("comp")
             return None
 
@@ -479,16 +1079,16 @@ def r7(ctx, r):
             if e.kind != "stmt":
                 return None
             a = asg(e.node)
-            if a and key_of(a[0]) == "complete":
+            if a and is_var(a[0], comp_d):
                 cv = const_value(strip_casts(a[1]))
                 return [("set", "comp", bool(cv))] if cv is not None else [("havoc", "comp")]
             if e.node.get("k") == "decl":
                 for v in e.node["vars"]:
-                    if v["n"] == "complete":
+                    if v.get("d") == comp_d:
                         return [("set", "comp", bool(const_value(strip_casts(v.get("init") or {}))))]
             return None
         pa = PredAbs(e_, vocab, leaf, effects, eh=False)
-        ends = [x for x in e_.elems() if x.kind == "dtor" and (x.node.get("n") == "recvResult" or x.node.get("var") == "recvResult") and search(e_, x, lambda y: y is rcv[0], eh=False) is not None]
+        ends = [x for x in e_.elems() if x.kind == "dtor" and x.raw.get("d") == rr_d and search(e_, x, lambda y: y is rcv[0], eh=False) is not None]
         okl = bool(ends) and all(pa.entails(x, Or(A("ok"), A("comp"))) for x in ends)
     r.expect(okl, e_, None, "error arm loops", "an error result of receiveSync can lead back to another receive without the exchange being complete: a failing peer is polled again instead of the attempt failing", okdesc="every error arm throws or completes")
 
@@ -516,14 +1116,16 @@ def r8(ctx, r):
              okdesc="repeated Connection lines are combined into one list")
     # a cached connection is handed to a request only after the transport was asked whether the peer has closed it / sent
     # anything since the last exchange (a close that arrives after a complete keep-alive response is seen by nobody else)
-    aq = fn(ctx, HC, "acquireConnection", HCF)
-    probes = getattr(ctx, "_c17_probes", None)
-    if probes is None:
-        raise AnalysisBroken("probe summaries not collected (C17-R5 did not run)")
-    crets = [e for e in common.returns(aq) if "second.id" in show(e.node) or ".id" in show(e.node) and "it->" in show(e.node)]
+    # (wherever the cache look-up lives: acquireConnection itself or a helper it was moved into — every function of the client that
+    # returns the session id stored in a cache entry is an instance)
+    probes = probe_table(ctx)
+    crets = []
+    for g in ctx.fb().methods_of(HC):
+        if g.ok and g.file.endswith(HCF):
+            crets += [(g, e) for e in common.returns(g) if any(x.get("k") == "member" and x["n"].endswith("::ConnectionEntry::id") for x in walk(e.node))]
     if not crets:
-        raise AnalysisBroken("acquireConnection: cached return not found")
-    for e in crets:
+        raise AnalysisBroken("no function of HttpClient returns the session id of a cache entry (cached return not found)")
+    for (aq, e) in crets:
         r.instance()
         okp = False
         for (c, t) in dominating_facts(aq, e):
@@ -532,47 +1134,137 @@ def r8(ctx, r):
                 kind = probes[c0["callee"]]
                 if (kind == "quiet" and t) or (kind == "pending" and not t):
                     okp = True
-        r.expect(okp, aq, e, "cached connection handed out unchecked", "acquireConnection returns a cached session without having asked the transport (zero-timeout receive) whether the peer closed it or sent anything since "
+        r.expect(okp, aq, e, "cached connection handed out unchecked", "%s returns a cached session without having asked the transport (zero-timeout receive) whether the peer closed it or sent anything since "
                  "the last exchange: a server that closes right after a complete keep-alive response leaves a dead session in the cache — the next request is 'sent' on it, fails as possibly-sent and (for a POST) is "
-                 "not retried although not a byte reached the server", okdesc="cached session probed before reuse")
+                 "not retried although not a byte reached the server" % last(aq.name), okdesc="%s: cached session probed before reuse" % last(aq.name))
     f = fn(ctx, HC, "responseRequestsClose", HCF)
-    common.require_names(f, ["token", "resp"])
-    cb = [b for b in f.blocks.values() if b.cond is not None and common.cmp_parts(b.cond) and common.cmp_parts(b.cond)[0] == "==" and key_of(strip_views(common.cmp_parts(b.cond)[1])) == "token" and
-          [x.get("v") for x in walk(common.cmp_parts(b.cond)[2]) if x.get("k") == "str"] == ["close"]]
+
+    def token_test(b, lit):
+        """declaration id of the local compared for equality with the string literal, on a two-way branch"""
+        cp = common.cmp_parts(b.cond) if b.cond is not None else None
+        if cp and cp[0] == "==" and [x.get("v") for x in walk(cp[2]) if x.get("k") == "str"] == [lit]:
+            v = strip_views(cp[1])
+            if v is not None and v.get("k") == "var" and v.get("parm") is None:
+                return v["d"]
+        return None
+    cb = [b for b in f.blocks.values() if token_test(b, "close") is not None]
+    if len(cb) != 1:
+        # (no comparison of a token with "close" at all is a finding, not a refusal: the close signal is not recognised — unless the
+        # function hands the work to a helper of the client, which this clause does not read)
+        if not cb and any(hc_callee(ctx.fb(), e.node) is not None for e in f.stmts()):
+            raise AnalysisBroken("responseRequestsClose: the token comparison is not in the function itself (it calls helpers of the client)")
+        r.instance()
+        r.expect(False, f, None, "close token", "responseRequestsClose has %d comparisons of a Connection token with \"close\" (expected one): a connection the server is about to close stays cached and the next request fails on it" % len(cb))
+        return
+    tok_d = token_test(cb[0], "close")
     r.instance()
-    ok = len(cb) == 1 and any(e.kind == "stmt" and e.node.get("k") == "ret" and const_value(strip_casts(e.node.get("v") or {})) == 1 for e in f.blocks[cb[0].succs[0]].elems)
+    ok = any(e.kind == "stmt" and e.node.get("k") == "ret" and const_value(strip_casts(e.node.get("v") or {})) == 1 for e in f.blocks[cb[0].succs[0]].elems)
     r.expect(ok, f, None, "close token", "responseRequestsClose does not return true for a `close` token of the Connection header: a connection the server is about to close stays cached and the next request fails on it",
              okdesc="token == \"close\" → true")
-    fold = [e for e in f.stmts() if e.node.get("k") == "call" and last(e.node.get("callee", "")) == "transform" and "token.begin()" in show(e.node)]
+    fold = [e for e in f.stmts() if e.node.get("k") == "call" and last(e.node.get("callee", "")) == "transform" and any(x.get("k") == "var" and x.get("d") == tok_d for x in walk(e.node))]
     lam_ok = any("asciiLower" in show(x.node) or "tolower" in show(x.node) for (ln, lf) in f.lambdas for x in lf.stmts())
     r.instance()
-    r.expect(bool(fold) and lam_ok and cb and all(search(f, e, lambda x: x.block is cb[0], eh=False) is not None for e in fold), f, None, "close token case", "the Connection tokens are not case-folded before the comparison (`Connection: Close` is missed)",
+    r.expect(bool(fold) and lam_ok and all(search(f, e, lambda x: x.block is cb[0], eh=False) is not None for e in fold), f, None, "close token case", "the Connection tokens are not case-folded before the comparison (`Connection: Close` is missed)",
              okdesc="tokens lower-cased before comparison")
     sp = [e for e in f.stmts() if e.node.get("k") == "mcall" and last(e.node.get("callee", "")) == "find" and [const_value(x) for x in walk(e.node["args"][0]) if x.get("k") == "char"] == [ord(",")]]
     hd = [e for e in f.stmts() if e.node.get("k") == "mcall" and last(e.node.get("callee", "")) == "find" and [x.get("v") for x in walk(e.node["args"][0]) if x.get("k") == "str"] == ["Connection"]]
     r.instance()
     r.expect(len(sp) == 1 and len(hd) == 1, f, None, "token list", "the Connection header is not looked up and split on commas", okdesc="Connection header split on ','")
-    rets = [e for e in common.returns(f) if "httpVersion" in show(e.node)]
+    # what the function answers when no token decided: every return is one of (a) `true` behind the close token, (b) `false` behind a
+    # keep-alive token (directly, or through the flag that branch sets), (c) the version test — read through named constants
+    # (`const bool closesByDefault = resp.httpVersion == "1.0"; … return closesByDefault;`)
+    consts = {}
+    assigned = {strip_casts(asg(e.node)[0]).get("d") for e in f.stmts() if asg(e.node) and strip_casts(asg(e.node)[0]).get("k") == "var"}
+    for e in f.stmts():
+        if e.node.get("k") == "decl":
+            for v in e.node["vars"]:
+                if (v.get("t") or "").startswith("const ") and not (v.get("t") or "").rstrip().endswith("&") and v.get("init") is not None and v["d"] not in assigned:
+                    consts[v["d"]] = v["init"]
+
+    def resolved(n, depth=0):
+        if not isinstance(n, dict) or depth > 4:
+            return n
+        tab = {x["d"]: consts[x["d"]] for x in walk(n) if x.get("k") == "var" and x.get("d") in consts}
+        if not tab:
+            return n
+        return resolved(_subst_locals(n, tab), depth + 1)
+    ka = [b for b in f.blocks.values() if token_test(b, "keep-alive") == tok_d]
+    saw = set()
+    for b in ka:
+        for e in f.blocks[b.succs[0]].elems if b.succs[0] is not None else []:
+            a = asg(e.node) if e.kind == "stmt" else None
+            if a and const_value(strip_casts(a[1])) == 1 and strip_casts(a[0]).get("k") == "var":
+                saw.add(strip_casts(a[0])["d"])
+    vrets, kf_direct, kf_flag, unjust, odd = [], [], [], [], []
+    for e in common.returns(f):
+        v = resolved(e.node.get("v") or {})
+        cv = const_value(strip_casts(v)) if strip_casts(v) is not None and strip_casts(v).get("k") == "bool" else None
+        if any(x.get("k") == "member" and x["n"].endswith("::Response::httpVersion") for x in walk(v)):
+            vrets.append((e, v))
+        elif cv == 1 and e.block.id == cb[0].succs[0]:
+            pass
+        elif cv == 0:
+            direct = any(dominated_by_edge(f, e, b, 0, eh=False) for b in ka)
+            flagb = [b for b in f.blocks.values() if b.cond is not None and len(b.succs) == 2 and strip_casts(common.branch(b)[0]).get("k") == "var" and strip_casts(common.branch(b)[0]).get("d") in saw and
+                     common.branch(b)[1] is not None and dominated_by_edge(f, e, b, b.succs.index(common.branch(b)[1]), eh=False)]
+            if direct:
+                kf_direct.append(e)
+            elif flagb:
+                kf_flag.append((e, flagb))
+            else:
+                unjust.append(e)
+        else:
+            odd.append(e)
+    if odd:
+        raise AnalysisBroken("responseRequestsClose: cannot classify `%s` (neither a token verdict nor the HTTP-version default)" % show(odd[0].node)[:60])
     r.instance()
-    r.expect(len(rets) == 1 and '"1.0"' in show(rets[0].node) and "==" in show(rets[0].node), f, None, "HTTP/1.0 default", "without a Connection directive an HTTP/1.0 response is not treated as closing", okdesc="no directive: close iff HTTP/1.0")
-    # keep-alive only wins when no close token was seen: the `return false` for keep-alive is after the token loop
-    kf = [e for e in common.returns(f) if const_value(strip_casts(e.node.get("v") or {})) == 0]
+    r.expect(len(vrets) >= 1 and not unjust and all('"1.0"' in show(v) and any((common.cmp_parts(x) or ("",))[0] == "==" for x in walk(v)) for (_e, v) in vrets), f, (unjust or [None])[0], "HTTP/1.0 default",
+             "without a Connection directive an HTTP/1.0 response is not treated as closing%s" % ((": the `return false` at line %d is behind no keep-alive token" % unjust[0].line) if unjust else ""), okdesc="no directive: close iff HTTP/1.0 (%d return%s)" % (len(vrets), "" if len(vrets) == 1 else "s"))
+    # keep-alive only wins when no close token was seen: `false` is never returned straight from the keep-alive test (later tokens are
+    # still unread there), only through the flag it sets, tested where the token loop can no longer be re-entered
     r.instance()
-    r.expect(len(kf) == 1 and cb and search(f, kf[0], lambda x: x.block is cb[0], eh=False) is None, f, None, "keep-alive precedence", "a keep-alive token ends the scan before a later `close` token is seen", okdesc="keep-alive decided only after all tokens")
+    r.expect(not kf_direct and (kf_flag or not ka) and all(search(f, ("block", b.id), lambda x: x.block is cb[0], eh=False) is None for (_e, bs) in kf_flag for b in bs), f, (kf_direct or [None])[0], "keep-alive precedence",
+             "a keep-alive token ends the scan before a later `close` token is seen", okdesc="keep-alive decided only after all tokens")
+
+
+def _subst_locals(n, table):
+    """like subst(), for locals (any variable whose declaration id is in the table)"""
+    if not isinstance(n, dict):
+        return n
+    if n.get("k") == "var" and n.get("d") in table:
+        return table[n["d"]]
+    out = None
+    for k, v in n.items():
+        if isinstance(v, dict):
+            nv = _subst_locals(v, table)
+            if nv is not v:
+                out = out or dict(n)
+                out[k] = nv
+        elif isinstance(v, list):
+            nl = [_subst_locals(x, table) for x in v]
+            if any(a is not b for a, b in zip(nl, v)):
+                out = out or dict(n)
+                out[k] = nl
+    return out or n
 
 
 
 def anchors(ctx, r):
-    tab = [(fn(ctx, HC, "performRequest", HCF), ["attempt", "retries", "method"]), (fn(ctx, HC, "executeRequest", HCF), ["reusable", "forceEvict", "framing", "recvResult", "complete", "lease", "sendResult"]),
-           (fn(ctx, HC, "frameResponse", HCF), ["forceEvict", "data"]), (fn(ctx, HC, "isIdempotentMethod", HCF), ["method"])]
+    # only PARAMETER names of anchored functions are left here (a parameter is part of the function's declaration); every local the
+    # rules need — the attempt counter, the results of sendSync/receiveSync/frameResponse, the lease, the surplus flag, the framing
+    # state, the Connection token — is found through the value it holds (retry_counter, var_initialised_by, surplus_flag, r5.arg_decl, r8.token_test)
+    tab = [(fn(ctx, HC, "performRequest", HCF), ["method"])]          # (`retries`, frameResponse's `data`, isIdempotentMethod's parameter: found by type / position, see param_decl)
     for f, names in tab:
-        common.require_names(f, names)
+        have = {p_.get("n") for p_ in f.params}
+        missing = [x for x in names if x not in have]
+        if missing:
+            raise AnalysisBroken("%s: the rule identifies its constructs through the parameter names %s, which no longer exist — re-anchor the rule (a rename is not a violation)" % (short(f.name), missing))
         r.instance()
         r.ok("%s: %s" % (last(f.name), ", ".join(names)))
 
 
 def run(ctx, ck):
-    r0 = ck.run_rule("C17-R0", "the local names the rules are anchored on exist (a rename makes the analysis refuse — exit 2 — instead of raising a false alarm)", "anchor table", lambda r: anchors(ctx, r))
+    r0 = ck.run_rule("C17-R0", "the parameter names the rules are anchored on exist (a rename makes the analysis refuse — exit 2 — instead of raising a false alarm); locals are found by dataflow, not by name", "anchor table", lambda r: anchors(ctx, r))
     if r0.broken:
         return
     ck.run_rule("C17-R1", "the retry decision is a pure function of (method, exception just caught); framing errors never retried", "A5 predicate abstraction + reaching-definition locality", lambda r: r1(ctx, r))
